@@ -19,8 +19,8 @@ import (
 	"math/big"
 	"math/rand"
 	"os"
-	"runtime/metrics"
 	"runtime/debug"
+	"runtime/metrics"
 	"sort"
 	"strings"
 
@@ -41,8 +41,8 @@ import (
 
 type carrier struct {
 	Name  string
-	All   int                                        // > 0: every defect case is applied to variants 0..All-1
-	Kind  string                                     // proto | bytes | json
+	All   int                                         // > 0: every defect case is applied to variants 0..All-1
+	Kind  string                                      // proto | bytes | json
 	Build func(seed int64, variant int) proto.Message // proto carriers
 	Raw   func(seed int64, variant int) []byte        // other carriers
 }
@@ -90,7 +90,9 @@ func mustProto(m proto.Message, err error) proto.Message {
 	return m
 }
 
-func woOf(typ string, seed int64, v int) *types.WorkObject { return objOf(typ, seed, v).(*types.WorkObject) }
+func woOf(typ string, seed int64, v int) *types.WorkObject {
+	return objOf(typ, seed, v).(*types.WorkObject)
+}
 
 var carriers = []*carrier{
 	{Name: "gossip-block", Kind: "proto", Build: func(s int64, v int) proto.Message {
@@ -636,8 +638,16 @@ func initEntries2() {
 	})
 
 	// JSON
+	// Only WorkObjectHeader (argument of the public RPC quai_receiveWorkShare, with its nested AuxPow and
+	// PowShareDiffAndCount decoders) and the hexutil/rpc argument types are decoded from untrusted JSON by the
+	// NODE.  The other UnmarshalJSON methods are used by client libraries on server responses: they are
+	// exercised for information, a panic there is not a C15 violation.
 	js := func(name, carr string, f func(b []byte) error) {
-		entries = append(entries, &entry{Name: "json-" + name, Carriers: []string{carr}, Reach: "rpc", Run: f})
+		reach := "client-lib"
+		if name == "WorkObjectHeader" || name == "hexutil-args" {
+			reach = "rpc"
+		}
+		entries = append(entries, &entry{Name: "json-" + name, Carriers: []string{carr}, Reach: reach, Run: f})
 	}
 	for _, k := range []string{"quai", "qi", "ext"} {
 		js("Transaction-"+k, "json-tx-"+k, func(b []byte) error { return new(types.Transaction).UnmarshalJSON(b) })
@@ -650,13 +660,13 @@ func initEntries2() {
 	js("Receipt", "json-receipt", func(b []byte) error { return new(types.Receipt).UnmarshalJSON(b) })
 	js("hexutil-args", "json-hexargs", func(b []byte) error {
 		var a struct {
-			Bytes hexutil.Bytes          `json:"bytes"`
-			Big   *hexutil.Big           `json:"big"`
-			U64   hexutil.Uint64         `json:"u64"`
-			Hash  common.Hash            `json:"hash"`
-			Addr  common.AddressBytes    `json:"addr"`
-			BN    rpc.BlockNumber        `json:"blockNumber"`
-			BNH   rpc.BlockNumberOrHash  `json:"blockNrOrHash"`
+			Bytes hexutil.Bytes           `json:"bytes"`
+			Big   *hexutil.Big            `json:"big"`
+			U64   hexutil.Uint64          `json:"u64"`
+			Hash  common.Hash             `json:"hash"`
+			Addr  common.AddressBytes     `json:"addr"`
+			BN    rpc.BlockNumber         `json:"blockNumber"`
+			BNH   rpc.BlockNumberOrHash   `json:"blockNrOrHash"`
 			Mixed common.MixedcaseAddress `json:"mixed"`
 		}
 		return json.Unmarshal(b, &a)
@@ -1068,13 +1078,14 @@ func heapAllocs() uint64 {
 }
 
 type fuzzRun struct {
-	viol     map[string]*fuzzViolation
-	calls    int
-	perEntry map[string]int
-	outcomes map[string]bool // distinct (entry, origin kind, outcome class)
-	maxAlloc map[string]uint64
-	errs     int
-	oks      int
+	viol      map[string]*fuzzViolation
+	calls     int
+	perEntry  map[string]int
+	outcomes  map[string]bool // distinct (entry, origin kind, outcome class)
+	maxAlloc  map[string]uint64
+	clientLib map[string]int
+	errs      int
+	oks       int
 }
 
 const allocBase = 64 << 20
@@ -1108,6 +1119,10 @@ func (f *fuzzRun) feed(e *entry, carr, origin string, b []byte) {
 		f.oks++
 	}
 	add := func(kind, class string) {
+		if e.Reach == "client-lib" {
+			f.clientLib[e.Name+": "+class]++
+			return
+		}
 		key := kind + "|" + e.Name + "|" + class
 		v := f.viol[key]
 		if v == nil || len(b) < v.Len {
@@ -1184,7 +1199,7 @@ func cmdFuzz(args []string) {
 	debug.SetGCPercent(400)
 	log.Global.ExitFunc = func(code int) { panic(fatalExit{code}) }
 	setupEntries()
-	f := &fuzzRun{viol: map[string]*fuzzViolation{}, perEntry: map[string]int{}, outcomes: map[string]bool{}, maxAlloc: map[string]uint64{}}
+	f := &fuzzRun{viol: map[string]*fuzzViolation{}, perEntry: map[string]int{}, outcomes: map[string]bool{}, maxAlloc: map[string]uint64{}, clientLib: map[string]int{}}
 	r := rand.New(rand.NewSource(*seed))
 
 	// 0. every entry accepts the valid encoding (else the harness is broken)
@@ -1337,7 +1352,7 @@ func cmdFuzz(args []string) {
 		names = append(names, e.Name+" ["+e.Reach+"]")
 	}
 	res := map[string]interface{}{"calls": f.calls, "defect_cases": cases, "violations": vs, "per_entry": f.perEntry, "outcome_classes": oc,
-		"distinct_outcome_classes": len(oc), "entries": names, "errors": f.errs, "accepted": f.oks, "max_alloc": f.maxAlloc}
+		"distinct_outcome_classes": len(oc), "entries": names, "errors": f.errs, "accepted": f.oks, "max_alloc": f.maxAlloc, "client_lib_panics": f.clientLib}
 	b, _ := json.MarshalIndent(res, "", " ")
 	must(os.WriteFile(*out, b, 0o644))
 }
@@ -1358,7 +1373,7 @@ func cmdFuzzOne(args []string) {
 	setupEntries()
 	b, err := hex.DecodeString(*hx)
 	must(err)
-	f := &fuzzRun{viol: map[string]*fuzzViolation{}, perEntry: map[string]int{}, outcomes: map[string]bool{}, maxAlloc: map[string]uint64{}}
+	f := &fuzzRun{viol: map[string]*fuzzViolation{}, perEntry: map[string]int{}, outcomes: map[string]bool{}, maxAlloc: map[string]uint64{}, clientLib: map[string]int{}}
 	for _, e := range entries {
 		if e.Name == *en {
 			f.feed(e, "", "replay", b)
